@@ -377,6 +377,21 @@ def gen_cases(rng, tier):
                 cases.append({'kind': kind, 'op': op, 'a': a, 'b': b})
                 if not raw:
                     cases.append({'kind': kind, 'op': op, 'a': b, 'b': a})
+    # Polynomials of different orders (compared after padding the shorter one with leading zero coefficients)
+    for oa, ob in [(1, 2), (2, 1), (0, 2), (2, 0), (1, 3), (2, 2)]:
+        for shape in [(3,), (), (2, 2)]:
+            for _ in range(3):
+                a = gen_num_operand(rng, shape, (oa + 1,), 'Polynomial')
+                b = gen_num_operand(rng, shape, (ob + 1,), 'Polynomial')
+                a['float'] = b['float'] = True
+                n = max(oa, ob) + 1
+                for k in range(len(a['vals'])):          # mostly equal after padding
+                    if rng.random() < 0.6:
+                        full = ([0] * (n - oa - 1) + list(a['vals'][k]))
+                        if all(x == 0 for x in full[:n - ob - 1]):
+                            b['vals'][k] = full[n - ob - 1:]
+                for op in ('eq', 'ne', 'tvl_eq', 'tvl_ne'):
+                    cases.append({'kind': 'polyeq', 'op': op, 'a': a, 'b': b})
     # a fraction of the operands is REACHED THROUGH A HISTORY (harness/hist.py: cached views asked for, then an
     # in-place operation / assignment that brings the object to the described content) - seeded change C14-D
     for c in cases:
@@ -492,6 +507,27 @@ def run_case(c, Pm):
                 res['ref'] = ref_reduce(fn, ta, shape, axes)
                 res['coq'] = '(CRed %s %s %s)' % (cnat(w), clist([cbool(k) for k in keep], 'bool'), coq_bobj(a))
                 res['impl'] = observe(getattr(a, c['op'])(axis=axis), Pm)
+            elif kind == 'polyeq':
+                # Polynomials of different order: equal where the zero-padded coefficient vectors are (seeded C14-H)
+                a, b = build_num(c['a'], Pm), build_num(c['b'], Pm)
+                op = c['op']
+                n = max(c['a']['item'][0], c['b']['item'][0])
+                pad = lambda d: dict(d, cls='Vector', item=[n],        # noqa: E731
+                                     vals=[[0] * (n - d['item'][0]) + list(row) for row in d['vals']], hist=None)
+                da, db = pad(c['a']), pad(c['b'])
+                plain = ref_cmp(op[-2:], da, db, _build_num(da, Pm), _build_num(db, Pm))
+                if op.startswith('tvl_'):
+                    ms = np.broadcast_shapes(tuple(da['shape']), tuple(db['shape']))
+                    mm = (np.broadcast_to(np.broadcast_to(np.asarray(a._mask_), a.shape), ms)
+                          | np.broadcast_to(np.broadcast_to(np.asarray(b._mask_), b.shape), ms)).ravel()
+                    vals = plain[2] if plain[0] == 'arr' else ['T' if plain[1] else 'F']
+                    res['ref'] = ('arr', list(ms), ['M' if m else v for v, m in zip(vals, mm)])
+                    res['impl'] = observe(getattr(a, op)(b), Pm)
+                else:
+                    res['ref'] = plain
+                    res['impl'] = observe(PYCMP[op](a, b), Pm)
+                if res['impl'][0] == 'bool' and res['ref'][0] == 'arr' and not res['ref'][1]:
+                    res['ref'] = ('bool', res['ref'][2][0] == 'T')
             else:
                 a, b = build_num(c['a'], Pm), build_num(c['b'], Pm)
                 op = c['op']
